@@ -38,7 +38,7 @@ def hqr2_exception(b, r):
 
 
 def run(ck, prog):
-    n, used = run_e4(ck, prog, SCOPE, MUST, exceptions=hqr2_exception, floor=38)
+    n, used = run_e4(ck, prog, SCOPE, MUST, exceptions=hqr2_exception, floor=30)
     ck.extra["t_comparisons_classified"] = n
     ck.extra["frozen_exceptions_used"] = used
     if used > 2:
